@@ -85,12 +85,22 @@ pub fn check_limits(case: &C17Case, tr: &Trace) -> Result<Vec<&'static str>, Fai
     }
     // ---- when
     let emitted = tr.emitted(real, peer);
-    let times_of = |k: Kind| -> Vec<u64> { emitted.iter().filter(|d| kind_of(&d.pdu) == k && d.t <= t_fault + eps).map(|d| d.t).collect() };
+    // (the cancel PDU that follows the fault - an EOF / Finished carrying the fault's condition - is not a retransmission; with
+    // tau = 0 it reaches the link in the millisecond of the fault)
+    let carries_fault_cond = |d: &Dgram| match d.pdu.as_ref().map(|x| &x.payload) {
+        Some(PDUPayload::Directive(Operations::EoF(e))) => e.condition == expected_cond,
+        Some(PDUPayload::Directive(Operations::Finished(f))) => f.condition == expected_cond,
+        _ => false,
+    };
+    let times_of = |k: Kind| -> Vec<u64> { emitted.iter().filter(|d| kind_of(&d.pdu) == k && d.t <= t_fault + eps && !carries_fault_cond(d)).map(|d| d.t).collect() };
+    // a PDU counts as sent before the fault when it reached the link no later than the fault indication; with tau = 0 a PDU
+    // on the link in the very millisecond of the fault is what the transaction did *after* declaring it (handler Ignore: it carries on)
+    let before_fault = |t: u64| t + (1 - tau.min(1)) <= t_fault;
     let last_delivery_before = |t: u64| tr.deliveries.iter().filter(|d| d.1 == real && d.0 <= t).map(|d| d.0).max();
     match case.family.as_str() {
         "S-ack" | "R-ack" => {
             let k = if real == 0 { Kind::Eof } else { Kind::Finished };
-            let tx: Vec<u64> = times_of(k).into_iter().filter(|t| *t <= t_fault).collect();
+            let tx: Vec<u64> = times_of(k).into_iter().filter(|t| before_fault(*t)).collect();
             if tx.len() as u64 != l {
                 return Err(fail(
                     tr,
@@ -118,7 +128,7 @@ pub fn check_limits(case: &C17Case, tr: &Trace) -> Result<Vec<&'static str>, Fai
             // u = L x T after the first transmission, every expiry before it retransmitted (consecutive transmissions, and the
             // last one and the fault, are T..2T of un-suspended time apart: a resume starts a fresh period), at least L transmissions.
             let k = if real == 0 { Kind::Eof } else { Kind::Finished };
-            let tx: Vec<u64> = times_of(k).into_iter().filter(|t| *t <= t_fault).collect();
+            let tx: Vec<u64> = times_of(k).into_iter().filter(|t| before_fault(*t)).collect();
             let t_s = tr.cmds.iter().find(|c| c.1 == real && c.2.starts_with("Suspend")).map(|c| c.0);
             let t_r = tr.cmds.iter().find(|c| c.1 == real && c.2.starts_with("Resume")).map(|c| c.0);
             let (Some(t_s), Some(t_r)) = (t_s, t_r) else {
@@ -185,7 +195,7 @@ pub fn check_limits(case: &C17Case, tr: &Trace) -> Result<Vec<&'static str>, Fai
                 .map(|d| d.0)
                 .max()
                 .unwrap_or(0);
-            let naks: Vec<u64> = times_of(Kind::Nak).into_iter().filter(|t| *t > t_last_data && *t <= t_fault).collect();
+            let naks: Vec<u64> = times_of(Kind::Nak).into_iter().filter(|t| *t > t_last_data && before_fault(*t)).collect();
             // group PDUs of one round
             let mut rounds: Vec<u64> = vec![];
             for t in naks {
@@ -466,7 +476,7 @@ pub fn build(family: &str, ta: i64, tn: i64, ti: i64, l: u32, handler: i8, answe
 pub fn run(ctx: &mut Ctx) {
     ctx.rule = "7 families (sender ack limit, sender inactivity, receiver ack limit, receiver NAK limit, receiver inactivity, checksum failure, file-size error) x timeouts (Ta,Tn,Ti) over {1,2,3} s (the timeout \
 under test varies over all three values, the others are set apart from it) x limit 1..4 x handler {absent, cancel, suspend, ignore, abandon} x 0..2 answers shortly before an expiry (keep-alive / late segment / partial \
-retransmission) x deferred/immediate NAK; exhaustive over this grid. Every case is non-trivial once the expected fault was declared (distinct by case)."
+retransmission) x deferred/immediate NAK; exhaustive over this grid, repeated under other link timings (tau, latency) in {(0,0),(5,3)} (quick, half of the grid each) / {(0,0),(0,4),(2,0),(5,3),(10,5)} (thorough). Every case is non-trivial once the expected fault was declared (distinct by case)."
         .into();
     ctx.assumptions = vec![
         "timing tolerance 3 tau + 6 ms; the first transmission of a PDU reaches the link up to 2 tau after its timer was started".into(),
@@ -517,6 +527,21 @@ retransmission) x deferred/immediate NAK; exhaustive over this grid. Every case 
                     }
                 }
             }
+        }
+    }
+    // link timing variants: serialisation delay tau and latency (the grid above uses tau 1 ms, latency 2 ms)
+    let variants: Vec<(u64, u64)> = ctx.tier.pick(vec![(0, 0), (5, 3)], vec![(0, 0), (0, 4), (2, 0), (5, 3), (10, 5)]);
+    let base = cases.clone();
+    for (vi, (tau, lat)) in variants.iter().enumerate() {
+        for (ci, c) in base.iter().enumerate() {
+            // quick: every other case per variant
+            if ctx.tier == Tier::Quick && (ci + vi) % 2 == 1 {
+                continue;
+            }
+            let mut c2 = c.clone();
+            c2.sc.tau_ms = *tau;
+            c2.sc.lat_ms = *lat;
+            cases.push(c2);
         }
     }
     ctx.section = "grid".into();
